@@ -391,6 +391,18 @@ func oneRound(repo string, env []string, overlay map[string][]byte, newKeys map[
 	exprTaken := map[*ast.CallExpr]bool{}
 	for _, h := range helpers {
 		why := inlinable(h.pk, h.decl, h.obj)
+		if why == "contains defer" || why == "contains labels" {
+			// as a function literal under go/defer the body keeps its own frame: fine
+			all := len(sites[h]) > 0
+			for _, cs := range sites[h] {
+				if !isGoDeferSite(cs) {
+					all = false
+				}
+			}
+			if all {
+				why = ""
+			}
+		}
 		if why == "" && valueUse[h] {
 			why = "used as a value, not only called"
 		}
@@ -590,6 +602,7 @@ func inlinable(pk *packages.Package, fd *ast.FuncDecl, obj *types.Func) string {
 				if !inLit {
 					why = "contains defer"
 				}
+				_ = y
 			case *ast.LabeledStmt:
 				if !inLit {
 					why = "contains labels"
@@ -679,6 +692,10 @@ func planCall(fset *token.FileSet, srcOf map[*ast.File][]byte, h *helper, cs *ca
 	}
 	stmt := cs.stack[si].(ast.Stmt)
 	parent := cs.stack[si-1]
+	// `if x := h(); cond {` — the simple statement is the init of an if: work on the if statement
+	if pif, ok := parent.(*ast.IfStmt); ok && pif.Init == stmt && si >= 2 {
+		stmt, parent, si = pif, cs.stack[si-2], si-1
+	}
 	// nothing between the statement and the call may delay or repeat evaluation
 	var shortCircuit *ast.BinaryExpr // outermost && / || that has the call in its right operand
 	for i := si + 1; i < len(cs.stack)-1; i++ {
@@ -693,6 +710,80 @@ func planCall(fset *token.FileSet, srcOf map[*ast.File][]byte, h *helper, cs *ca
 					return nil, nil, nil, "nested short-circuit operands"
 				}
 			}
+		}
+	}
+	// `go h(args)` / `defer h(args)`: the helper becomes a function literal called in place
+	{
+		var gc *ast.CallExpr
+		switch s := stmt.(type) {
+		case *ast.GoStmt:
+			gc = s.Call
+		case *ast.DeferStmt:
+			gc = s.Call
+		}
+		if gc != nil {
+			if gc != cs.call {
+				return nil, nil, nil, "call inside the arguments of a go/defer statement"
+			}
+			if cross || hfile != cs.file {
+				return nil, nil, nil, "go/defer of a helper declared in another file"
+			}
+			if w := captureCheck(h.pk, hd, hobj, cs); w != "" {
+				return nil, nil, nil, w
+			}
+			params := string(hsrc[fset.Position(hd.Type.Params.Pos()).Offset+1 : fset.Position(hd.Type.Params.End()).Offset-1])
+			results := ""
+			if hd.Type.Results != nil {
+				results = " " + text(hsrc, fset, hd.Type.Results)
+			}
+			recvArg := ""
+			if hd.Recv != nil && len(hd.Recv.List) == 1 {
+				sel, ok := ast.Unparen(cs.call.Fun).(*ast.SelectorExpr)
+				if !ok {
+					return nil, nil, nil, "method called without a selector"
+				}
+				if sl := info.Selections[sel]; sl == nil || len(sl.Index()) != 1 {
+					return nil, nil, nil, "method reached through an embedded field"
+				}
+				rf := hd.Recv.List[0]
+				rname := "_"
+				if len(rf.Names) == 1 {
+					rname = rf.Names[0].Name
+				}
+				rdecl := rname + " " + text(hsrc, fset, rf.Type)
+				if strings.TrimSpace(params) == "" {
+					params = rdecl
+				} else {
+					params = rdecl + ", " + params
+				}
+				xt := info.TypeOf(sel.X)
+				arg := text(csrc, fset, sel.X)
+				rt := sig.Recv().Type()
+				switch {
+				case xt == nil:
+					return nil, nil, nil, "receiver type unknown"
+				case types.Identical(xt, rt):
+				case isPtrTo(rt, xt):
+					arg = "&(" + arg + ")"
+				case isPtrTo(xt, rt):
+					arg = "*(" + arg + ")"
+				default:
+					return nil, nil, nil, "receiver needs a conversion I do not model"
+				}
+				recvArg = arg
+			}
+			lit := "func(" + params + ")" + results + " " + text(hsrc, fset, hd.Body)
+			var es []edit
+			es = append(es, edit{fset.Position(cs.call.Fun.Pos()).Offset, fset.Position(cs.call.Fun.End()).Offset, lit})
+			if recvArg != "" {
+				lp := fset.Position(cs.call.Lparen).Offset + 1
+				sep := ", "
+				if len(cs.call.Args) == 0 {
+					sep = ""
+				}
+				es = append(es, edit{lp, lp, recvArg + sep})
+			}
+			return es, stmt, map[string]string{}, ""
 		}
 	}
 	mode := ""
@@ -1360,4 +1451,18 @@ func planExprCall(fset *token.FileSet, srcOf map[*ast.File][]byte, h *helper, cs
 		}
 	}
 	return []edit{{fset.Position(cs.call.Pos()).Offset, fset.Position(cs.call.End()).Offset, repl}}, imports, "", true
+}
+
+func isGoDeferSite(cs *callSite) bool {
+	for i := len(cs.stack) - 1; i >= 0; i-- {
+		switch s := cs.stack[i].(type) {
+		case *ast.GoStmt:
+			return s.Call == cs.call
+		case *ast.DeferStmt:
+			return s.Call == cs.call
+		case ast.Stmt:
+			return false
+		}
+	}
+	return false
 }
